@@ -95,6 +95,7 @@ sx_enum! {
         AuditAll,
         Bulk { a: u8, n: u32, p: u64 },
         BulkDestroy { a: u8, stride: u32, phase: u32 },
+        Spawn { c: u64 },
     }
 }
 
@@ -133,6 +134,7 @@ impl Op {
             Op::AuditAll => "AuditAll",
             Op::Bulk { .. } => "Bulk",
             Op::BulkDestroy { .. } => "BulkDestroy",
+            Op::Spawn { .. } => "Spawn",
         }
     }
     pub fn tag(&self) -> u64 {
@@ -158,6 +160,7 @@ impl Op {
             Op::AuditAll => 19,
             Op::Bulk { .. } => 20,
             Op::BulkDestroy { .. } => 21,
+            Op::Spawn { .. } => 22,
         }
     }
 }
